@@ -1,4 +1,5 @@
 import ErbiumModel.Lemmas.DnsTree
+import ErbiumModel.Lemmas.DnsMessage
 /-! # C14 — DNS messages survive decode/encode unchanged, including name compression -/
 namespace Erbium.Props.C14
 open Erbium Erbium.DnsWire
@@ -39,6 +40,35 @@ theorem C14_pointer_targets (node : Option Tree) (label : Label) (i : Nat) (c : 
 /-- the decoder's loop guard is the number of labels a name can have (regenerated from the source) -/
 theorem C14_depth_limit : Generated.Dns.pointerDepthLimit = 127 ∧ Generated.Dns.pointerLimit = 16384 := by decide
 
+/-- **C14 (records).** For every record type — names in owner position and inside record data alike,
+    each compressed against everything written before — what `push_rr` appends at `off` is read
+    back by `get_rr` as the identical record, the decoder continues right behind it and the offsets
+    tree stays valid. `RROK` = the record is one the decoder can produce (field widths, data matching
+    the type, names of at most 127 labels of 1..63 octets). -/
+theorem C14_record_roundtrip (rr : RR) (hok : RROK rr) (t t' : Tree) (buf b : Bytes) (off : Nat)
+    (h : pushRR rr t off = some (b, t')) (hat : At buf off b) (ht : RootOK (buf.take off) t)
+    (hsz : off + b.length < 65536) :
+    getRR buf off = .ok (rr, off + b.length) ∧ RootOK (buf.take (off + b.length)) t' :=
+  rr_at rr hok h hat ht hsz
+
+/-- **C14 (sections).** Any list of records written without truncation is read back in order. -/
+theorem C14_section_roundtrip (size : Nat) (trunc : Bool) (rrs : List RR) (hok : ∀ rr ∈ rrs, RROK rr)
+    (buf : Bytes) (t : Tree) (n : Nat) (buf' : Bytes) (t' : Tree) (n' : Nat)
+    (h : pushSection size rrs buf t n = some (buf', t', n', false)) (ht : RootOK buf t) (hsz : buf'.length < 65536) :
+    n' = n + rrs.length ∧ (∀ post, getRRs (buf' ++ post) trunc rrs.length buf.length = .ok (rrs, buf'.length)) ∧
+    RootOK buf' t' :=
+  let r := section_at size trunc rrs hok buf t n buf' t' n' h ht hsz
+  ⟨r.2.1, r.2.2.1, r.2.2.2⟩
+
+/-- **C14 (messages).** Every message of the shape the decoder produces (`WfPkt`), when it is written
+    completely (no section stopped early) into at most 65535 octets, is decoded back to the
+    identical message: header bits, opcode, extended rcode, EDNS version/size/DO/options, question
+    and every record of every section. -/
+theorem C14_message_roundtrip (p : Pkt) (hw : WfPkt p) (size : Nat) (wire : Bytes) (hs : 512 ≤ size)
+    (hc : Complete p size wire) (hsz : wire.length < 65536) :
+    serialiseWithSize p size = some wire ∧ parse wire = .ok p :=
+  ⟨complete_serialise p size wire hs hw.rcode hc, message_roundtrip p hw size wire hc hsz⟩
+
 /-! Non-vacuity: `www.example.com` after `example.com` is written as `www` + pointer and decodes back. -/
 def ex1 : Name := [[101, 120], [99]]
 def ex2 : Name := [[119], [101, 120], [99]]
@@ -52,5 +82,17 @@ example : (match pushName ex1 root 12 with
          | .error _ => false)
       | none => false
     | none => false) = true := by decide
+
+/-- a complete message with a compressed MX target and an EDNS record: the hypotheses of the message theorem are
+    met by a concrete message (checked by evaluation of the executable model) -/
+def exPkt : Pkt :=
+  { qid := 7, rd := true, tc := false, aa := false, qr := true, opcode := 0, cd := false, ad := false, ra := true, rcode := 0,
+    bufsize := 1232, ednsVer := some 0, ednsDo := true, qdomain := ex1, qclass := 1, qtype := 15,
+    answer := [{ domain := ex1, cls := 1, rrtype := 15, ttl := 300, rdata := .mx 10 ex2 }],
+    nameserver := [], additional := [{ domain := ex2, cls := 1, rrtype := 1, ttl := 60, rdata := .other [192, 0, 2, 1] }],
+    edns := some [(10, [1, 2, 3, 4, 5, 6, 7, 8])] }
+example : (match serialiseWithSize exPkt 512 with
+    | some w => (match parse w with | .ok q => decide (q = exPkt) | .error _ => false)
+    | none => false) = true := by decide +kernel
 
 end Erbium.Props.C14
